@@ -53,6 +53,34 @@ pub fn check_step(ctx: &mut Ctx, s: &Step) -> Result<(), Violation> {
     if want != Status::Ongoing {
         ctx.sample(|| s.case_with(json!({"status": format!("{:?}", want)})));
     }
+    // positions obtained from this one by a null move (and back) or through the deprecated editing
+    // API are positions too (one position in four)
+    if fp(&(p, "c04-ways")) % 4 == 0 {
+        for (vp, vb, how) in super::editapi::other_ways(p, b, 2) {
+            ctx.evals_add(1);
+            let vl = vp.legal_moves();
+            let vwant = if !vl.is_empty() {
+                Status::Ongoing
+            } else if vp.in_check(vp.stm) {
+                Status::Checkmate
+            } else {
+                Status::Stalemate
+            };
+            let vgot = match vb.status() {
+                BoardStatus::Ongoing => Status::Ongoing,
+                BoardStatus::Stalemate => Status::Stalemate,
+                BoardStatus::Checkmate => Status::Checkmate,
+            };
+            ctx.class("status:position-obtained-by-null-move-or-editing");
+            if vgot != vwant {
+                ctx.fail(
+                    &format!("status:{:?}-reported-as-{:?}", vwant, vgot),
+                    format!("position {:?} obtained through {}: status() = {:?}; rules: in check = {}, legal moves = {} => {:?}", vp.fen(), how, vgot, vp.in_check(vp.stm), vl.len(), vwant),
+                    s.case_with(json!({"obtained_through": how, "position_checked": vp.fen()})),
+                )?;
+            }
+        }
+    }
     // one ply of look-ahead: the status of every successor as the library reaches it
     // incrementally (make_move_new), so that every available mate, stalemate, en-passant
     // capture and promotion is judged, not only the move the history happens to play
